@@ -311,7 +311,7 @@ let run_tracecc infile outfile =
     let page1 = !cur_page1 in
     let x = ref (normalize_cc n cx_init) in
     let fail = ref None in
-    let idx = ref 0 and confs = ref 0 and elections = ref 0 in
+    let idx = ref 0 and confs = ref 0 and elections = ref 0 and batches = ref 0 and batchconfs = ref 0 and batchconfs_late = ref 0 in
     let prevrole = Array.make (n + 1) Follower and prevcfg = Array.make (n + 1) boot in
     (* every configuration obtained from a prefix of any log seen in this schedule *)
     let family : (nat list * nat list) list ref = ref [(boot.c_in, boot.c_out)] in
@@ -328,15 +328,20 @@ let run_tracecc infile outfile =
            let outs = (try List.filter_map (fun t -> match t with "P" :: _ -> None | _ -> Some (msg_of_tokens t)) g.g_out
                        with Unmodelled c -> fail := Some (Printf.sprintf "event=%d reason=unmodelled-message %s" !idx c); raise Exit) in
            let base = if String.length g.g_kind > 1 && g.g_kind.[0] = 'X' then "R" else g.g_kind in
-           let candidates : event list =
+           let candidates : cevent list =
              (try match base with
-                | "C" -> [EvCampaign]
-                | "P" | "CC" -> [EvPropose (nat_of_int (int_of_string (List.hd g.g_args)))]
-                | "T" -> [EvTick; EvCampaign]
-                | "SR" | "K" -> [EvTick]
-                | "R" -> [EvRestart]
-                | "D" | "DD" -> [EvRecv (msg_of_tokens g.g_args)]
-                | "FP" | "FPD" -> (match g.g_args with _ :: _ :: _ :: p :: _ -> [EvPropose (nat_of_int (int_of_string p))] | _ -> failwith "bad FP")
+                | "C" -> [CEv EvCampaign]
+                | "P" | "CC" -> [CEv (EvPropose (nat_of_int (int_of_string (List.hd g.g_args))))]
+                | "PB" ->
+                  (* one MsgProp with several entries, stepped at a leader *)
+                  incr batches;
+                  List.iteri (fun i a -> let v = int_of_string a in if v >= 100 then (incr batchconfs; if i > 0 then incr batchconfs_late)) g.g_args;
+                  [CBatch (List.map (fun a -> nat_of_int (int_of_string a)) g.g_args)]
+                | "T" -> [CEv EvTick; CEv EvCampaign]
+                | "SR" | "K" -> [CEv EvTick]
+                | "R" -> [CEv EvRestart]
+                | "D" | "DD" -> [CEv (EvRecv (msg_of_tokens g.g_args))]
+                | "FP" | "FPD" -> (match g.g_args with _ :: _ :: _ :: p :: _ -> [CEv (EvPropose (nat_of_int (int_of_string p)))] | _ -> failwith "bad FP")
                 | k -> failwith ("unknown event kind " ^ k)
               with Unmodelled c -> fail := Some (Printf.sprintf "event=%d reason=unmodelled-message %s" !idx c); raise Exit) in
            let rec try_all_ok evs = match evs with
@@ -366,9 +371,9 @@ let run_tracecc infile outfile =
      | None ->
        let fam = !family in
        let inside = List.for_all (fun a -> List.for_all (fun b -> confs_intersect n a b) fam) fam in
-       Printf.fprintf oc "S %s OK events=%d nodes=%d elections=%d confswitches=%d configs=%d envelope=%d learners=%d\n" !cur_k !idx n !elections !confs
+       Printf.fprintf oc "S %s OK events=%d nodes=%d elections=%d confswitches=%d configs=%d envelope=%d learners=%d batches=%d batchconfs=%d batchconfslate=%d\n" !cur_k !idx n !elections !confs
          (List.length fam) (if inside then 1 else 0)
-         (if !cur_learners then 1 else 0)) in
+         (if !cur_learners then 1 else 0) !batches !batchconfs !batchconfs_late) in
   List.iter (fun l ->
       match split_ws l with
       | ["SCHEDULE"; k] -> cur_k := k; groups := []; cur := None
